@@ -48,7 +48,28 @@ pub fn orders(groups: &AnnGroups) -> Vec<(Vec<AnnFact>, String)> {
     }
     out.push((groups.interleaved(), "round-robin interleaving of all records".to_string()));
     let ident: Vec<usize> = (0..k).collect();
+    // the OMIM and the first ORPHA record's facts in every order as well (|o1| = |r1| = |S|: rot1 / rot2 of S)
+    for p in permutations(groups.o1.len()).into_iter().skip(1) {
+        let mut g = AnnGroups { g1: groups.g1.clone(), g2: groups.g2.clone(), o1: p.iter().map(|&i| groups.o1[i].clone()).collect(), r1: groups.r1.clone(), r2: groups.r2.clone(), bare: groups.bare.clone() };
+        if groups.r1.len() == p.len() {
+            g.r1 = p.iter().map(|&i| groups.r1[i].clone()).collect();
+        }
+        out.push((g.sequential(&ident), format!("omim and orpha facts in order {p:?}")));
+    }
     let base = groups.sequential(&ident);
+    // the bare registration (add_gene / add_*_disease) of records that are also annotated, before, between and
+    // after their annotation facts
+    {
+        // (only records that do have annotation facts: registering one that has none would add a record)
+        let regs: Vec<(crate::model::Kind, u32, &str)> = [(super::common::G1, !groups.g1.is_empty()), (super::common::O1, !groups.o1.is_empty()), (super::common::R1, !groups.r1.is_empty())].into_iter().filter(|x| x.1).map(|x| x.0).collect();
+        for (pos, what) in [(0usize, "first"), (base.len() / 2, "in the middle"), (base.len(), "last")] {
+            let mut v = base.clone();
+            for rec in &regs {
+                v.insert(pos.min(v.len()), Facts::ann(rec.0, rec.1, rec.2, None));
+            }
+            out.push((v, format!("annotated records additionally registered without a term, {what}")));
+        }
+    }
     for i in 0..base.len() {
         if base[i].term.is_none() {
             continue;
@@ -369,6 +390,16 @@ pub fn explore(ctx: &mut Ctx, label: &str) {
                 let f = Facts { anns: groups.sequential(&ident), ..base.clone() };
                 via_binary(ctx, &f, &EncOpts::v(1), "canonical");
                 via_binary(ctx, &f, &EncOpts::v(2), "canonical");
+                // a term id listed twice inside a record ("repeated facts"): refused, or an ontology consistent with
+                // the records it reports itself (no id twice in any list)
+                for version in [3u8, 1] {
+                    let mut o = EncOpts::v(version);
+                    o.repeat_term_ids = true;
+                    let pf = crate::encode::project(&f, version);
+                    let bytes = crate::encode::encode(&pf, &o);
+                    ctx.transitions(pf.n_steps());
+                    super::c08::self_consistent_or_refused(ctx, &bytes, &format!("binary v{version}, first term id of every record repeated at its end"), &|| json!({"facts": pf.to_json(), "format_version": version}));
+                }
                 // every record written twice (without its last term, then completely)
                 super::common::via_binary_repeated(ctx, &f, 3, "canonical");
                 let rev: Vec<usize> = ident.iter().rev().copied().collect();
@@ -410,6 +441,25 @@ pub fn explore(ctx: &mut Ctx, label: &str) {
                 }
                 let f = Facts { anns: groups.interleaved(), ..base.clone() };
                 via_jax(ctx, &f, &JaxOpts::default(), false, "interleaved rows");
+                // two records of one kind sharing their symbol / name, rows adjacent and separated (a row-level
+                // "skip what repeats the previous row" keyed on the name would drop facts)
+                for kind in crate::model::KINDS {
+                    for adjacent in [true, false] {
+                        if let Some(g) = jax::with_shared_name(&f, kind, adjacent) {
+                            let w = format!("two {} records with one name, rows {}", kind.name(), if adjacent { "adjacent" } else { "separated" });
+                            via_jax(ctx, &g, &JaxOpts::default(), false, &w);
+                            via_jax(ctx, &g, &JaxOpts::default(), true, &w);
+                        }
+                    }
+                }
+                // the optional columns of both files filled with row-dependent values (only the id, name / symbol,
+                // qualifier and term columns carry facts)
+                {
+                    let mut o = JaxOpts::default();
+                    o.distractors = vec![jax::Distractor::HpoaFilledColumns, jax::Distractor::GeneTrailingColumns];
+                    via_jax(ctx, &f, &o, false, "interleaved rows, optional columns filled");
+                    via_jax(ctx, &f, &o, true, "interleaved rows, optional columns filled (transitive loader)");
+                }
                 // repeated rows: every row twice (adjacent), and the whole file twice (distant repeats)
                 let mut twice: Vec<AnnFact> = vec![];
                 for a in &f.anns {
